@@ -124,6 +124,37 @@ def hostile_subpackages():
     return request([root] + files, 'transport=grpc+rest,metadata,autogen-snippets=false'), None
 
 
+# hand-written sample config (option samples=<file>): ids that collide with another sample's region tag are
+# disambiguated with a digest of the spec -- which must not depend on the process
+SAMPLE_CONFIG = '''---
+type: com.google.api.codegen.samplegen.v1p2.SampleConfigProto
+schema_version: 1.2.0
+samples:
+- id: get_book_sample
+  region_tag: library_get_book_basic
+  description: Fetch a single book
+  rpc: GetBook
+  service: acme.lib.v1.Library
+- region_tag: get_book_sample
+  description: Fetch a single book, again
+  rpc: GetBook
+  service: acme.lib.v1.Library
+- id: delete_book_sample
+  region_tag: library_delete_book_basic
+  description: Delete a book
+  rpc: DeleteBook
+  service: acme.lib.v1.Library
+- region_tag: delete_book_sample
+  description: Delete a book and print the result
+  rpc: DeleteBook
+  service: acme.lib.v1.Library
+- region_tag: library_list_books_plain
+  description: List books
+  rpc: ListBooks
+  service: acme.lib.v1.Library
+'''
+
+
 def inputs(thorough):
     ok_edits = [n for n in edits.EDIT_NAMES if n not in ('subpkg_service', 'recursive_oneof_first', 'subpkg_types')]
     out = {
@@ -134,6 +165,7 @@ def inputs(thorough):
         'types': hostile_types(),
         'subpackages': hostile_subpackages(),
         'max-state': (edits.build(ok_edits, 'transport=grpc+rest,metadata'), None),
+        'baseline+handwritten-samples': (apis.baseline('transport=grpc,samples=@samples.yaml@'), {'samples.yaml': SAMPLE_CONFIG}),
     }
     if thorough:
         out['baseline+mixins'] = (apis.baseline('transport=grpc+rest,metadata,service-yaml=@svc.yaml@'),
